@@ -4,6 +4,11 @@
 #![allow(dead_code)]
 
 mod alloc;
+#[path = "/repo/src/cli/src/errors.rs"]
+mod errors;
+#[path = "/repo/src/cli/src/keyring.rs"]
+mod keyring;
+mod kr;
 mod golden;
 mod noise;
 mod sio;
@@ -40,6 +45,13 @@ fn real_main() {
             }
             let ctx = stream::Ctx { t: terms::Templates::load(&args[2]), seed: seed() };
             stream::run_file(&ctx, &args[3], &args[4]);
+        }
+        "kr" => {
+            if args.len() != 5 {
+                usage();
+            }
+            let t = terms::Templates::load(&args[2]);
+            kr::run_file(&t, seed(), &args[3], &args[4]);
         }
         "noise" => {
             if args.len() != 5 {
